@@ -11,6 +11,7 @@ LIB-SSE CODE
 @description: 
 """
 import json
+import os
 import pathlib
 import pickle
 import shutil
@@ -19,6 +20,17 @@ _PROGRAM_DIR_PATH = pathlib.Path.home().joinpath(".sse/client/")
 _PROGRAM_PATH = pathlib.Path(_PROGRAM_DIR_PATH)
 if not _PROGRAM_PATH.exists():
     _PROGRAM_PATH.mkdir(exist_ok=True, parents=True)
+
+
+def _write_file_atomically(file_path: pathlib.Path, data: bytes):
+    """Write to a temporary file first and then rename it over the target,
+    so that a crash never leaves a truncated or half-written file behind."""
+    tmp_path = file_path.with_name(file_path.name + ".tmp")
+    with open(tmp_path, "wb") as f:
+        f.write(data)
+        f.flush()
+        os.fsync(f.fileno())
+    os.replace(tmp_path, file_path)
 
 
 def check_sid_local_file_valid(sid: str):
@@ -40,8 +52,7 @@ def read_service_config(sid: str) -> dict:
 
 
 def write_service_config(sid: str, config: dict):
-    with open(_PROGRAM_PATH.joinpath(sid).joinpath("config.json"), "w") as f:
-        json.dump(config, f)
+    _write_file_atomically(_PROGRAM_PATH.joinpath(sid).joinpath("config.json"), json.dumps(config).encode("utf8"))
 
 
 def read_service_meta(sid: str) -> dict:
@@ -49,8 +60,7 @@ def read_service_meta(sid: str) -> dict:
 
 
 def write_service_meta(sid: str, meta: dict):
-    with open(_PROGRAM_PATH.joinpath(sid).joinpath("service_meta"), "wb") as f:
-        pickle.dump(meta, f)
+    _write_file_atomically(_PROGRAM_PATH.joinpath(sid).joinpath("service_meta"), pickle.dumps(meta))
 
 
 def read_encrypted_database(sid: str) -> bytes:
@@ -59,8 +69,7 @@ def read_encrypted_database(sid: str) -> bytes:
 
 
 def write_encrypted_database(sid: str, edb_bytes: bytes):
-    with open(_PROGRAM_PATH.joinpath(sid).joinpath("edb"), "wb") as f:
-        f.write(edb_bytes)
+    _write_file_atomically(_PROGRAM_PATH.joinpath(sid).joinpath("edb"), edb_bytes)
 
 
 def delete_encrypted_database(sid: str):
@@ -69,8 +78,7 @@ def delete_encrypted_database(sid: str):
 
 
 def write_key(sid: str, key_bytes: bytes):
-    with open(_PROGRAM_PATH.joinpath(sid).joinpath("key"), "wb") as f:
-        f.write(key_bytes)
+    _write_file_atomically(_PROGRAM_PATH.joinpath(sid).joinpath("key"), key_bytes)
 
 
 def read_key(sid: str) -> bytes:
